@@ -130,6 +130,12 @@ func (e *enc) call(c *Case) {
 	e.str(c.P5)
 	e.s(`,"ns":`)
 	e.i(c.Ns)
+	e.s(`,"nsd":`)
+	if c.Nsd > 1 {
+		e.i(c.Nsd)
+	} else {
+		e.i(1)
+	}
 	e.s(`,"ls":`)
 	e.i(c.Ls)
 	e.s(`,"fixed":`)
